@@ -167,8 +167,12 @@ def run(ctx):
             r.check(describe_operand(rd, c.args[1]) == "current", "Event/%s/sends-current" % describe_operand(rd, c.args[0]), c.loc(), "the interpreted frame (`current`) is what is sent")
         interp = [c for c in rd.calls if c.via_name == "interpret_frame_data"]
         clr = [c for c in rd.calls if c.name == "clear" and describe_operand(rd, c.args[0]) == "current"]
-        r.check(len(interp) == 1 and len(clr) == 1 and rd.dominates(clr[0].block, interp[0].block) and rd.dominates(interp[0].block, c_sr.block) and "current" in describe_operand(rd, interp[0].args[-1]),
+        r.check(len(interp) == 1 and any(rd.dominates(c.block, interp[0].block) for c in clr) and rd.dominates(interp[0].block, c_sr.block) and "current" in describe_operand(rd, interp[0].args[-1]),
                 "Event/current-rebuilt-before-send", interp[0].loc() if interp else where(rd), "current is cleared and re-interpreted from the frame before it is sent")
+        # a frame that could not be interpreted (and is ignored rather than aborting) is not passed on, and is not an event
+        for c in (c_sr, c_sa):
+            r.check(_has(dom_guards(rd, c.block), lambda d, l: d.startswith("disc(interpret_frame_data(") and l == "Ok"), "Event/%s/only-an-interpreted-frame-is-sent" % describe_operand(rd, c.args[0]), c.loc(),
+                    "send_current runs only when interpret_frame_data returned Ok", "send_current also runs when interpret_frame_data failed and the frame is being ignored: consumers are sent an event with an empty or partial body, which they cannot decode")
         c_sc = call1("sync_current")
         c_so = call1("sync_only")
         o1 = others(c_sc)
@@ -184,6 +188,8 @@ def run(ctx):
                 se.append((rv[1][1].get("v"), [l for d, l, _ in dom_guards(rd, i) if d.endswith(".envelope)")], line))
         trues = [x for x in se if x[0] in (True, 1)]
         r.check(len(trues) == 1 and trues[0][1] == ["Event"], "sync_event/set-by-Event-only", where(rd), "sync_event := true exactly in the Event arm", "sync_event assignments: %s" % se)
+        tb = [i for i, j, p, rv, line in rd.assigns() if describe_place(rd, p) == "sync_event" and rv[0] == "use" and rv[1][0] == "k" and rv[1][1].get("v") in (True, 1)]
+        r.check(len(tb) == 1 and _has(dom_guards(rd, tb[0]), lambda d, l: d.startswith("disc(interpret_frame_data(") and l == "Ok"), "sync_event/only-for-an-interpreted-frame", where(rd), "an ignored frame does not count as a received event")
         # send_current: feed to every sender, drop only the failed ones
         fd = [c for c in sn.calls if c.name == "feed"]
         cf = [c for c in sn.calls if c.name == "clear_failed"]
@@ -227,6 +233,36 @@ def run(ctx):
                 r.check(desc, "clear_failed/%s/positions-still-valid" % c.name, c.loc(), "positions are consumed in descending order, so an earlier removal never moves a later target",
                         "senders.%s(i) inside a loop over the recorded positions: after the first removal every later element has moved down by one, so the second removal drops a healthy consumer (it sees a bare EOF, never `unlinked`) and a failed one stays" % c.name)
             r.check(bool(positional), "clear_failed/removes-exactly-the-marked-positions", where(cf_b), "removal by position", "clear_failed neither retains by position nor removes by position: failed senders stay registered")
+
+    with ctx.rule("C07.R2c", "T6", "the read task takes a waiting new consumer before the remote's next message", floor=4) as r:
+        # attach_task passes a consumer to the read task before the write task, so it is queued here before the sync request for it can
+        # be sent; the reply must not overtake it: every select over (consumer_stream, messages) is biased, consumers first
+        tree = [b for b in rt.all_bodies() if "downlink::read_task::" in b.defpath]
+        sel = []
+        for b in tree:
+            for i, j, p_, rv, line in b.assigns():
+                if rv[0] == "agg" and rv[1].get("tuple"):
+                    ds = [describe_operand(b, o) for o in rv[2]]
+                    if any(d.startswith("next(") for d in ds) and not any(d.startswith("into_future(") for d in ds):
+                        ci = [k for k, d in enumerate(ds) if d.startswith("next(") and "consumer" in d]
+                        mi = [k for k, d in enumerate(ds) if d.startswith("next(") and ("messages" in d or "input" in d)]
+                        if ci and mi:
+                            sel.append((b, line, ci[0], mi[0], len(ds)))
+        if len(sel) < 2:
+            raise AnchorMissing("read_task: expected two selects over (new consumer, message), found %d" % len(sel))
+        for k, (b, line, ci, mi, n) in enumerate(sel):
+            ctx.saw(b)
+            r.check(ci < mi, "read_task/select#%d/consumer-branch-first" % k, b.loc(line), "branch %d waits for a consumer, branch %d for a message" % (ci, mi), "the message branch precedes the consumer branch")
+            pollers = [c_ for c_ in tree if c_.defpath.startswith(b.defpath + "::") and any(c.name == "next" and "Range(0, %d)" % n in describe_operand(c_, c.args[0]) for c in c_.calls if c.args)]
+            rnd = [c for c_ in pollers for c in c_.calls if c.name == "thread_rng_n"]
+            r.check(len(pollers) >= 1 and not rnd, "read_task/select#%d/biased" % k, b.loc(line), "the branches are polled in order (biased): a consumer that is already queued is always taken first",
+                    "the select picks a random starting branch: when the read task was held up (slow consumer) `synced` can be processed before the consumer that asked for it is known; it then waits in awaiting_synced for ever" if rnd else "no poll loop found for this select")
+        at = ctx.saw(_body(rt, "downlink::attach_task::{closure#0}"))
+        snds = [(c, describe_operand(at, c.args[0])) for c in at.calls if c.name == "send" and c.args]
+        ct = [c for c, d in snds if "consumer_tx" in d]
+        pt = [c for c, d in snds if "producer_tx" in d]
+        r.check(len(ct) == 1 and len(pt) == 1 and at.reaches(ct[0].block, {pt[0].block}) and at.path_avoiding([0], {pt[0].block}, avoid={ct[0].block}) is None, "attach_task/read-task-first", ct[0].loc() if ct else where(at),
+                "a new consumer is handed to the read task before the write task hears of it", "attach_task no longer passes the consumer to the read task first")
 
     with ctx.rule("C07.R3", "T2", "every exit of the read task unlinks all consumers", floor=4) as r:
         uls = [c for c in rd.calls if c.name == "unlink" and c.is_fn("downlink::unlink")]
